@@ -19,8 +19,12 @@ META = {
             "order, several studies sharing the id space, finished template trials added by any client, clients that have never "
             "read a study, state filters, deletes). After EVERY step each caching client's get_all_trials (all filters, both "
             "deepcopy modes), get_trial, number->id lookup, study name and directions are compared with the raw reader and with "
-            "RefStorage; ordering must be by trial number. Held on the interleavings generated (sequential interleavings; thread "
-            "interleavings inside one client are exercised by C03's schedule driver).",
+            "RefStorage; ordering must be by trial number. Thread interleavings inside ONE caching client (cached sqlite, gRPC over "
+            "sqlite / in-memory): thread A (create with WAITING / finished / no template, full and filtered read, get_trial) is "
+            "preempted once at every line of the cache code it executes while another client finishes every unfinished trial and "
+            "thread B of the same client reads; for every such line at which B got through, B is in turn preempted at every line of "
+            "its read (two-preemption schedules); after both returned the client's views (all filters, get_trial, twice) must equal "
+            "the raw reader's. Held on the interleavings generated and the schedules enumerated (time-sliced per cell; cuts counted).",
     "note": "Trusted: RefStorage and the raw reader (a plain RDBStorage / the server-side storage object). A violation that needs a "
             "delete_study issued by ANOTHER client followed by SQLite re-issuing the deleted row ids is the documented known "
             "finding F11.",
@@ -28,7 +32,7 @@ META = {
     "design_ref": "DESIGN.md §3 C08",
     "engines": ["refmodel", "storage_exec", "histgen", "backends"],
 }
-REQUIRED = ("steps", "cache_reads_compared", "out_of_order_finishes", "finished_templates_by_cached_client", "late_joiner_reads", "histories_multi_study")
+REQUIRED = ("steps", "cache_reads_compared", "out_of_order_finishes", "finished_templates_by_cached_client", "late_joiner_reads", "histories_multi_study", "thread_schedules_b_inside_window")
 SHARDS = {"quick": 10, "thorough": 15}
 WATCHDOG_S = {"quick": 900, "thorough": 5 * 3600}
 KINDS = ["cached_sqlite", "cached_sqlite", "grpc:sqlite", "grpc:cached_sqlite", "grpc:inmemory", "grpc:journal_file", "cached_sqlite", "grpc:sqlite",
@@ -181,13 +185,197 @@ def _field_of(why: str) -> str:
             return f
     return "other"
 
+# ------------------------------------------------------------------ thread interleavings inside one caching client
+A_CALLS = ("create_waiting", "create", "read", "read_filtered", "get_trial", "create_finished")
+
+
+def _views(storage, sid, bind=None) -> dict:
+    from optuna.trial import TrialState as S
+
+    b = X.Binding()
+    out = {}
+    for name, states in (("all", None), ("WAITING", (S.WAITING,)), ("RUNNING", (S.RUNNING,)), ("COMPLETE", (S.COMPLETE,))):
+        out[name] = [X.frozen_view(t, b) for t in storage.get_all_trials(sid, deepcopy=False, states=states)]
+    return out
+
+
+def cache_schedules(ctx: Ctx, s, kind: str, a_kind: str) -> None:
+    """Thread A of ONE caching client is preempted once at every line of the cache code it executes in `a_kind`; meanwhile
+    another client finishes every unfinished trial and thread B of the SAME caching client reads the study.  After both threads
+    returned (no writer running), what the caching client serves must equal the raw reader - now and on the next read."""
+    import threading
+
+    from optuna.distributions import FloatDistribution
+    from optuna.study import StudyDirection
+    from optuna.trial import TrialState as S, create_trial
+    from vf import sched
+
+    import time as _t0
+
+    store = backends.Store(kind)
+    counter = [0]
+    slice_end = _t0.monotonic() + ctx.pick(40, 900)     # time slice of this cell (a cut is counted, never a verdict)
+
+    class _Clock:
+        @staticmethod
+        def out_of_time() -> bool:
+            return _t0.monotonic() > slice_end or ctx.out_of_time()
+
+    clock = _Clock()
+    try:
+        raw = store.raw_reader()
+
+        def scene():
+            counter[0] += 1
+            c = store.client()
+            sid = c.create_new_study([StudyDirection.MINIMIZE], f"sched-{a_kind}-{counter[0]}")
+            t0 = c.create_new_trial(sid)
+            c.set_trial_state_values(t0, S.COMPLETE, [0.0])
+            t1 = c.create_new_trial(sid)
+            c.set_trial_param(t1, "x", 0.5, FloatDistribution(0, 1))
+            c.get_all_trials(sid, deepcopy=False)       # the cache knows t0 (finished) and t1 (RUNNING)
+            return c, sid, t1
+
+        def a_call(c, sid, t1):
+            if a_kind == "create_waiting":
+                return c.create_new_trial(sid, create_trial(state=S.WAITING, system_attrs={"fixed_params": {"x": 0.25}}))
+            if a_kind == "create_finished":
+                return c.create_new_trial(sid, create_trial(state=S.COMPLETE, value=7.0, params={"x": 0.1}, distributions={"x": FloatDistribution(0, 1)}))
+            if a_kind == "create":
+                return c.create_new_trial(sid)
+            if a_kind == "read":
+                return c.get_all_trials(sid, deepcopy=False)
+            if a_kind == "read_filtered":
+                return c.get_all_trials(sid, deepcopy=False, states=(S.COMPLETE,))
+            return c.get_trial(t1)
+
+        def b_call(c, sid):
+            for t in raw.get_all_trials(sid, deepcopy=False):
+                if t.state == S.WAITING:
+                    raw.set_trial_state_values(t._trial_id, S.RUNNING)
+                if not t.state.is_finished():
+                    raw.set_trial_state_values(t._trial_id, S.COMPLETE, [float(t.number)])
+            return c.get_all_trials(sid, deepcopy=False)
+
+        def judge(c, sid, r, case, facts) -> None:
+            if r["hung"]:
+                ctx.count("schedules_hung")
+                return
+            for k2 in ("a", "b"):
+                if r["res"][k2][0] != "ok":
+                    ctx.violation({**facts, "kind": "non_contract_exception", "exc": r["res"][k2][1]}, f"thread {k2.upper()}: {r['res'][k2][1]}: {r['res'][k2][2]}", case)
+                    return
+            # the other client may also claim the trial A created after B looked
+            for t in raw.get_all_trials(sid, deepcopy=False):
+                if t.state == S.WAITING:
+                    raw.set_trial_state_values(t._trial_id, S.RUNNING)
+            want = _views(raw, sid)
+            for rnd in range(2):
+                got = _views(c, sid)
+                ctx.count("cache_reads_compared", 4)
+                bad = [k3 for k3 in want if want[k3] != got[k3]]
+                if bad:
+                    k3 = bad[0]
+                    ctx.violation({**facts, "kind": "cache_differs_from_backend", "stale_after_quiescence": True},
+                                  f"after both threads returned, read #{rnd + 1} of get_all_trials(states={k3}) through the caching client gives "
+                                  f"{[(v[1], v[2]) for v in got[k3]]} but the backend holds {[(v[1], v[2]) for v in want[k3]]}", case)
+                    return
+            for t in raw.get_all_trials(sid, deepcopy=False):
+                g = c.get_trial(t._trial_id)
+                if X.frozen_view(g, X.Binding()) != X.frozen_view(t, X.Binding()):
+                    ctx.violation({**facts, "kind": "cache_differs_from_backend", "stale_after_quiescence": True, "op": "get_trial"},
+                                  f"get_trial({t.number}) through the caching client: state {g.state.name}, backend {t.state.name}", case)
+                    return
+
+        facts = {"backend_family": backends.family_of(kind), "via_grpc": kind.startswith("grpc:"), "mode": "threads_inside_one_client", "a_call": a_kind,
+                 "foreign_delete_then_sqlite_id_reuse": False}
+        c, sid, t1 = scene()
+        lines = list(s.trace_counts(lambda: a_call(c, sid, t1)).items())
+        ctx.count("cache_lines_enumerated", len(lines))
+        open_targets = []
+        for (code, line), cnt in lines:
+            for nth in sorted({1, cnt}):
+                if clock.out_of_time():
+                    ctx.count("budget_cut")
+                    return
+                c, sid, t1 = scene()
+                r = sched.run_pair(s, (code, line, nth), lambda: a_call(c, sid, t1), lambda: b_call(c, sid), b_wait=0.3)
+                ctx.count("thread_schedules")
+                if r["hit"]:
+                    ctx.count("thread_schedules_line_hit")
+                if r["b_inside_window"]:
+                    ctx.count("thread_schedules_b_inside_window")
+                    open_targets.append((code, line, nth))
+                case = {"mode": "single_preemption", "backend": kind, "A": a_kind, "paused_at": f"{code.co_qualname}:{line}#{nth}", "seed": ctx.seed}
+                ctx.case(case, r["b_inside_window"])
+                judge(c, sid, r, case, {**facts, "preemptions": 1})
+        # second pass: for every line of A at which thread B got through (A held no lock there), B is in turn preempted at every
+        # line of its own cache read, A then runs to completion, then B.
+        c, sid, t1 = scene()
+        b_lines = list(s.trace_counts(lambda: c.get_all_trials(sid, deepcopy=False)).items())
+        import time as _t
+
+        from vf.common import safe
+
+        for (code, line, nth) in open_targets:
+            for (bcode, bline), bcnt in b_lines:
+                for bn in sorted({1, bcnt}):
+                    if clock.out_of_time():
+                        ctx.count("budget_cut")
+                        return
+                    c, sid, t1 = scene()
+                    res: dict = {}
+                    s.pause_at(code, line, thread_name="A", nth=nth)
+                    pp = s.add_pause(bcode, bline, thread_name="B", nth=bn)
+                    ta = threading.Thread(target=lambda: res.__setitem__("a", safe(lambda: a_call(c, sid, t1))), name="A")
+                    tb = threading.Thread(target=lambda: res.__setitem__("b", safe(lambda: b_call(c, sid))), name="B")
+                    ta.start()
+                    hit_a = s.reached.wait(2.0)
+                    tb.start()
+                    t_end = _t.monotonic() + 0.5
+                    while _t.monotonic() < t_end and tb.is_alive() and not pp.reached.is_set():
+                        pp.reached.wait(0.01)
+                    hit_b = pp.reached.is_set()
+                    s.resume()
+                    ta.join(0.3 if hit_b else 30.0)   # A is legitimately blocked if B was paused while holding the cache lock
+                    if ta.is_alive():
+                        ctx.count("two_preemption_schedules_a_blocked_behind_b")
+                    pp.resume()
+                    tb.join(30.0)
+                    ta.join(30.0)
+                    s.disarm()
+                    ctx.count("two_preemption_schedules")
+                    if hit_a and hit_b:
+                        ctx.count("two_preemption_schedules_both_hit")
+                    case = {"mode": "two_preemptions", "backend": kind, "A": a_kind, "paused_at": f"{code.co_qualname}:{line}#{nth}",
+                            "B_paused_at": f"{bcode.co_qualname}:{bline}#{bn}", "seed": ctx.seed}
+                    ctx.case(case, hit_a and hit_b)
+                    judge(c, sid, {"hung": ta.is_alive() or tb.is_alive(), "res": res}, case, {**facts, "preemptions": 2})
+    finally:
+        store.close()
+
 
 def run(ctx: Ctx) -> None:
     ctx.rule = ("seeded sequential interleavings of (client, call) steps over 2-4 clients on one database; one case = one history; "
                 "non-trivial = it contains a trial that finished after a higher-numbered one AND at least two studies shared the id space")
-    ctx.assumptions = ["sequential interleavings only (one call at a time); concurrent calls inside one client are covered by C03"]
+    ctx.assumptions = ["histories: sequential interleavings (one call at a time); threads inside one client: one or two preemptions at line granularity of "
+                       "_cached_storage.py / _grpc/client.py, judged at quiescence only"]
     kind = KINDS[ctx.shard[0] % len(KINDS)] if ctx.shard[1] > 1 else "cached_sqlite"
     n = ctx.pick(9 if "sqlite" in kind else 16, 200 if "sqlite" in kind else 500)
+    # thread interleavings inside one caching client: one (backend, call of thread A) cell per shard slot
+    from vf import sched
+    import optuna.storages._cached_storage as m_cached
+    import optuna.storages._grpc.client as m_grpc
+
+    cells = [(k, a) for k in ("cached_sqlite", "grpc:sqlite", "grpc:inmemory") for a in A_CALLS]
+    mine = [cl for i, cl in enumerate(cells) if ctx.mine(i)]
+    if mine:
+        s = sched.Sched([m_cached, m_grpc])
+        try:
+            for k, a in mine:
+                cache_schedules(ctx, s, k, a)
+        finally:
+            s.close()
     for h in range(n):
         run_history(ctx, ctx.rng("hist", ctx.shard[0], h), kind, h)
         if ctx.out_of_time():
@@ -196,6 +384,17 @@ def run(ctx: Ctx) -> None:
 
 def replay(ctx: Ctx, w: dict) -> None:
     c = w["case"]
+    if c.get("mode") == "single_preemption":
+        from vf import sched
+        import optuna.storages._cached_storage as m_cached
+        import optuna.storages._grpc.client as m_grpc
+
+        s = sched.Sched([m_cached, m_grpc])
+        try:
+            cache_schedules(ctx, s, c["backend"], c["A"])
+        finally:
+            s.close()
+        return
     for sh in range(len(KINDS)):
         if KINDS[sh] == c["backend"]:
             run_history(ctx, ctx.rng("hist", sh, int(c["history_index"])), c["backend"], int(c["history_index"]))
